@@ -481,6 +481,28 @@ pub fn check_bulk(e: &Entry, ver: u32, ctx: Ctx, vals: &[Val], out: &mut Vec<Fin
             format!("bulk bytes {} != field-wise reference {}", hex(&bytes), hex(mbytes)),
         );
     }
+    // C12 in bulk contexts: the schema of the container type must describe the bytes written
+    if ctx != Ctx::Slice {
+        let schema = e.ops.schema_ctx(ctx, ver);
+        if sread::in_domain(&schema) && !unordered {
+            st.add("C12.states", 1);
+            st.add("C12.bulk_states", 1);
+            let mut cur = sread::Cur { b: &bytes, pos: 0 };
+            let mut toks = vec![];
+            let mut want = vec![];
+            sread::model_tokens(&cty, &cval, ver, &mut want);
+            match sread::sread(&schema, &mut cur, &mut toks, 0) {
+                Err(m) => ck.fail(&["C12"], "schema_driven_parse", m),
+                Ok(()) => {
+                    if cur.pos != bytes.len() {
+                        ck.fail(&["C12"], "schema_driven_parse", format!("schema-driven reader consumed {} of {} bytes", cur.pos, bytes.len()));
+                    } else if toks != want {
+                        ck.fail(&["C12"], "schema_driven_parse", format!("structure differs: schema-driven {:?} vs value {:?}", &toks[..toks.len().min(12)], &want[..want.len().min(12)]));
+                    }
+                }
+            }
+        }
+    }
     if ctx == Ctx::Slice {
         return;
     }
